@@ -325,6 +325,13 @@ impl RuntimeData {
             }
         }
 
+        // objects protected by a guard are roots too: what they refer to has to survive
+        for obj in self.object_list.iter_mut() {
+            let obj = unsafe { obj.as_mut() };
+            if matches!(obj.marker, GcMarker::Protected) {
+                progress_tracker.push(obj);
+            }
+        }
         // open upvalues stay on the open list (and get closed later) even if no closure that
         // captured them is reachable any more
         let mut upvalue = self.open_upvalues;
